@@ -56,7 +56,7 @@ def execute(world, op, p, mode, seed):
     elif p.get('legendcache') == 'warm':
         world.call(path, q, hdr)
     raw = world.call(path, q, hdr)
-    o = W.observe(world, raw, st.needles)
+    o = W.observe(world, raw, st.needles, st.full)
     o['request'] = {'path': path, 'query': raw['qs'], 'headers': hdr}
     if o['kind'] == 'xml' and o['skel'] == 'unparseable':
         o['xmlfix'] = W.xml_without_illegal_chars(raw)
@@ -149,11 +149,13 @@ def signature(op, p, c):
 # ---------------------------------------------------------------------------------------------------------------
 # TLC
 
-def model_check(ctx, name, ops, maxdev, defects=(), emit=False, invariants=INVARIANTS, timeout=1500):
+def model_check(ctx, name, ops, maxdev, defects=(), emit=False, invariants=INVARIANTS, timeout=1500, workers=TLC_WORKERS):
     d = ctx.sub('mc-' + name)
     consts = dict(Defects=set(defects), MaxDev=maxdev, Ops=('=AllOps' if ops is None else set(ops)))
     mp, cp = tlc.write_mc(d, 'Dispatch', 'MC_Dispatch', consts, invariants=list(invariants) + (['Emit'] if emit else []))
-    r = tlc.run(mp, cp, d, workers=TLC_WORKERS, timeout=timeout)
+    r = tlc.run(mp, cp, d, workers=workers, timeout=timeout)
+    ctx.log('TLC %s: MaxDev=%d defects=%s -> %d states, %s  [%.0fs]' % (name, maxdev, sorted(defects) or '{}', r.distinct,
+                                                                   'violates ' + r.violated if r.violated else ('ok' if r.ok else r.error), r.wall))
     return r
 
 
@@ -226,15 +228,20 @@ def tla_py(v):
 
 
 ATTACKS = {   # defect variant -> (operations, MaxDev) where TLC finds its counterexample
-    'raw_host': (['wms_caps', 'tms_caps', 'rest_caps'], 1), 'raw_header': (['wms_mapx', 'wms_fi'], 2), 'xml_ctrl': (['wms_map', 'tms_tile'], 1),
+    'raw_host': (['wms_caps', 'tms_caps', 'rest_caps'], 1), 'raw_header': (['wms_mapx'], 1), 'xml_ctrl': (['wms_map', 'tms_tile'], 1),
     'legend_png': (['wms_legend'], 1), 'no_escape': (['wms_map', 'wmts_tile'], 1), 'no_catch_all': (['wms_map'], 1)}
 
 
-def attack(ctx, chk, defect):
-    """TLC counterexample for a one-defect variant of the model, replayed on the real application."""
+def attack_model(ctx, defect):
     ops, k = ATTACKS[defect]
-    r = model_check(ctx, 'attack-' + defect, ops, k, defects=[defect], invariants=['AlwaysResponds', 'MarkupFixed', 'ImageOK'],
-                    timeout=900)
+    return model_check(ctx, 'attack-' + defect, ops, k, defects=[defect], invariants=['AlwaysResponds', 'MarkupFixed', 'ImageOK'],
+                       timeout=900, workers=2)
+
+
+def attack(ctx, chk, defect, r):
+    """TLC counterexample r for a one-defect variant of the model, replayed on the real application."""
+    if isinstance(r, Exception):
+        raise r
     if not r.violated or not r.trace:
         raise tlc.MachineryError('the %s variant of Dispatch.tla violates nothing - vacuous invariants? %r' % (defect, r))
     st = r.trace[0][1]
@@ -315,20 +322,52 @@ def catalogue_from_tlc(ctx):
     return {str(op): {str(k): [str(c) for c in v] for k, v in dom.items()} for op, dom in pr[-1][1].items()}
 
 
-def tables(ctx, name, ops, maxdev, timeout=2400):
-    """repaired variant: model-checked with all invariants; as-found variant: its terminal states (the property fails
-    on it, see attack()).  -> merged table {(op, params): (op, params, [response classes])}, TLC result of the repaired run"""
-    r = model_check(ctx, name, ops, maxdev, emit=True, timeout=timeout)
-    if not r.ok:
-        raise tlc.MachineryError('Dispatch.tla (repaired variant, %s): %r\n%s' % (name, r, r.out[-1500:]))
-    vacuity_guard('Dispatch ' + name, r)
-    rf = model_check(ctx, name + '-asfound', ops, maxdev, defects=AS_FOUND, emit=True, invariants=['TypeOK', 'NoStuck'], timeout=timeout)
-    if not rf.ok:
-        raise tlc.MachineryError('Dispatch.tla (as-found variant, %s): %r\n%s' % (name, rf, rf.out[-1500:]))
-    table = cases_of(r)
-    for key, (op, p, resps) in cases_of(rf).items():
-        table.setdefault(key, (op, p, []))[2].extend(resps)
-    return table, r, rf
+def tables(ctx, jobs, timeout=2400, attacks=()):
+    """jobs: [(name, ops, maxdev)].  Per job - repaired variant: model-checked with all invariants; as-found variant: its
+    terminal states (the property fails on it, see attack()).  The TLC runs go in parallel.
+    -> [(merged table {(op, params): (op, params, [response classes])}, TLC result repaired, TLC result as found)]"""
+    import threading
+    res = {}
+
+    def work(key, name, ops, maxdev, defects, invs):
+        try:
+            res[key] = model_check(ctx, name, ops, maxdev, defects=defects, emit=True, invariants=invs, timeout=timeout)
+        except Exception as ex:  # pragma: no cover
+            res[key] = ex
+    th = []
+    for name, ops, maxdev in jobs:
+        th.append(threading.Thread(target=work, args=((name, 0), name, ops, maxdev, (), INVARIANTS)))
+        th.append(threading.Thread(target=work, args=((name, 1), name + '-asfound', ops, maxdev, AS_FOUND, ['TypeOK', 'NoStuck'])))
+
+    def awork(dfc):
+        try:
+            res[('attack', dfc)] = attack_model(ctx, dfc)
+        except Exception as ex:  # pragma: no cover
+            res[('attack', dfc)] = ex
+    for dfc in attacks:
+        th.append(threading.Thread(target=awork, args=(dfc,)))
+    for t in th:
+        t.start()
+    for t in th:
+        t.join()
+    out = []
+    for name, ops, maxdev in jobs:
+        r, rf = res[(name, 0)], res[(name, 1)]
+        for x in (r, rf):
+            if isinstance(x, Exception):
+                raise x
+        if not r.ok:
+            raise tlc.MachineryError('Dispatch.tla (repaired variant, %s): %r\n%s' % (name, r, r.out[-1500:]))
+        vacuity_guard('Dispatch ' + name, r)
+        if not rf.ok:
+            raise tlc.MachineryError('Dispatch.tla (as-found variant, %s): %r\n%s' % (name, rf, rf.out[-1500:]))
+        table = cases_of(r)
+        for key, (op, p, resps) in cases_of(rf).items():
+            table.setdefault(key, (op, p, []))[2].extend(resps)
+        out.append((table, r, rf))
+    if attacks:
+        out.append({dfc: res[('attack', dfc)] for dfc in attacks})
+    return out
 
 
 def run(ctx):
@@ -348,12 +387,11 @@ def run(ctx):
                     raise tlc.MachineryError('catalogue class without concretisation: %s' % ex)
 
     # (M) the model: the repaired variant satisfies the property for all vectors with <= MaxDev deviations
-    table, r1, r1f = tables(ctx, 'k1', None, 1)
+    deep_ops = None if thorough else ['wms_mapx', 'wms_fi', 'wms_legend', 'wmts_tile', 'rest_tile', 'tms_tile', 'kml_doc', 'wms_caps']
+    (table, r1, r1f), (table2, r2, r2f), attack_runs = tables(ctx, [('k1', None, 1), ('k2', deep_ops, 2)],
+                                                              attacks=AS_FOUND + HYPOTHETICAL)
     ctx.add_tlc('Dispatch MaxDev=1, all operations', r1)
     ctx.add_tlc('Dispatch as found MaxDev=1, all operations (terminal states only)', r1f)
-    deep_ops = None if thorough else ['wms_map', 'wms_mapx', 'wms_fi', 'wms_legend', 'wmts_tile', 'rest_tile', 'tms_tile', 'kml_doc',
-                                      'demo_caps', 'wms_caps']
-    table2, r2, r2f = tables(ctx, 'k2', deep_ops, 2)
     ctx.add_tlc('Dispatch MaxDev=2, %s' % ('all operations' if thorough else ','.join(deep_ops)), r2)
     ctx.add_tlc('Dispatch as found MaxDev=2 (terminal states only)', r2f)
     if thorough:
@@ -367,7 +405,7 @@ def run(ctx):
     try:
         # counterexamples of the one-defect variants of the model, on the real application
         for dfc in AS_FOUND + HYPOTHETICAL:
-            attack(ctx, chk, dfc)
+            attack(ctx, chk, dfc, attack_runs[dfc])
 
         # (R) spec -> code: every printed vector on the real application
         nh = 5 if thorough else 2
@@ -455,7 +493,7 @@ def replay(ctx, data):
         ndev = sum(1 for k, v in p.items() if catalogue[op][k][0] != v)
         allowed = None
         if ndev <= 3:
-            table, _, _ = tables(ctx, 'replay', [op], ndev)
+            (table, _, _), = tables(ctx, [('replay', [op], ndev)])
             allowed = table.get(pkey(op, p), (op, p, None))[2]
         ref = execute(chk.world, op, p, 'benign', 0)
         rc = 0
